@@ -275,6 +275,14 @@ def prepare(tier, seed):
             except Exception:
                 import traceback
                 prep['errors'].append('T4 harness failed: ' + traceback.format_exc()[-2000:])
+        prep['t4k'] = None
+        if prep['lean_build_ok']:
+            try:
+                import t4
+                prep['t4k'] = t4.run_known_and_rename(WORK, REPO)
+            except Exception:
+                import traceback
+                prep['errors'].append('T4 known/rename harness failed: ' + traceback.format_exc()[-2000:])
         prep['t5'] = None
         if prep['lean_build_ok']:
             try:
@@ -425,6 +433,38 @@ def run_check(pid, tier):
                 violations.append(({'property': pid, 'broken': 'tie', 'tie': 'T4 probe crate has errors outside any probe',
                                     'detail': t4r['crate_errors'][:2]}, False))
 
+    # (3c) known findings and adversarial identifiers
+    t4k = prep.get('t4k')
+    known_lines = []
+    kf = known_findings().get('findings', [])
+    if cfg.get('t4') and ('known' in cfg['t4'] or 'rename' in cfg['t4']):
+        if t4k is None:
+            violations.append(({'property': pid, 'broken': 'tie', 'tie': 'T4 known/rename harness', 'detail': prep['errors']}, False))
+        else:
+            if 'known' in cfg['t4']:
+                for k in t4k['known']:
+                    listed = [f for f in kf if f['property'] == pid and f['signature'].get('probe') == k['id']]
+                    if k['reproduced'] and listed:
+                        known_lines.append(f"KNOWN-FINDING: property={pid} {listed[0]['text']}")
+                    elif k['reproduced'] and not listed:
+                        violations.append(({'property': pid, 'broken': 'property', 'what': 'well-formed definition does not compile: ' + k['what'],
+                                            'dsl': k['dsl'], 'errors': k['errors']}, True))
+            if 'rename' in cfg['t4']:
+                for r in t4k['rename']:
+                    if r['verdict'] != 'differs':
+                        continue
+                    listed = [f for f in kf if f['property'] == pid and
+                              f['signature'].get('identifier') == r['identifier'] and f['signature'].get('concrete') == r['concrete']]
+                    if listed:
+                        line = f"KNOWN-FINDING: property={pid} {listed[0]['text']}"
+                        if line not in known_lines:
+                            known_lines.append(line)
+                    else:
+                        violations.append(({'property': pid, 'broken': 'property',
+                                            'what': f"a state named `{r['identifier']}` compiles into a machine whose API differs from its renamed twin's",
+                                            'dsl': r['dsl'], 'difference': r['difference'], 'concrete_context': r['concrete'],
+                                            'dynamic': r['dynamic']}, True))
+
     # (4) T5: the real core functions on the whole finite error algebra
     t5r = prep.get('t5')
     if cfg.get('t5'):
@@ -468,6 +508,11 @@ def run_check(pid, tier):
                           'probe_failures': len(t4r['probe_failures']), 'illformed_definitions': t4r['illformed'],
                           'illformed_accepted': len(t4r['illformed_accepted']), 'assert_send_probes': t4r['send_probes'],
                           'families_consumed': cfg.get('t4')} if (t4r and cfg.get('t4')) else None),
+        'identifier_probes': ({'adversarial_identifiers': sorted({r['identifier'] for r in t4k['rename']}),
+                               'definitions': len(t4k['rename']),
+                               'verdicts': {v: sum(1 for r in t4k['rename'] if r['verdict'] == v) for v in ('same', 'does-not-compile', 'differs')},
+                               'known_finding_probes': {k['id']: k['reproduced'] for k in t4k['known']}}
+                              if (t4k and cfg.get('t4') and ('rename' in cfg['t4'] or 'known' in cfg['t4'])) else None),
         'core_algebra': ({'rows_exhaustive': t5r['rows'], 'impl_vs_model_disagreements': len(t5r['diffs']),
                           'impl_vs_oracle_failures': len(t5r['oracle_failures']), 'sample': t5r.get('sample')}
                          if (t5r and cfg.get('t5')) else None),
@@ -482,9 +527,8 @@ def run_check(pid, tier):
     write_evidence(pid, tier, seed, cov, time.time() - t0, nviol, assumptions)
 
     if not violations:
-        for kf in known_findings().get('findings', []):
-            if kf.get('property') == pid and kf.get('observed_by_probe'):
-                pass
+        for l in known_lines:
+            print(l)
         print(f'OK property={pid} tier={tier} theorems={len(ok_thms)}/{len(thms)} '
               f'definitions={cov["correspondence"]["definitions_compared"]} tokens={cov["correspondence"]["tokens_compared"]}')
         return 0
